@@ -1,5 +1,6 @@
 // djsim utilities: PRNG, hashing, minimal JSON. No dependency on the library.
 #pragma once
+#include <cstdio>
 #include <cstdint>
 #include <cstring>
 #include <map>
@@ -86,6 +87,13 @@ struct Rng
 };
 
 // ---------------------------------------------------------------- hashing
+struct Hasher;
+inline const Hasher*& hash_dump_target()
+{
+    static const Hasher* t = nullptr;
+    return t;
+}
+
 struct Hasher
 {
     uint64_t h = 0xcbf29ce484222325ull;
@@ -100,10 +108,18 @@ struct Hasher
     }
     void str(const std::string& s)
     {
-        u64(s.size());
+        if (hash_dump_target() == this)
+            fprintf(stderr, "LOG str %s\n", s.substr(0, 200).c_str());
+        uint64_t n = s.size();
+        bytes(&n, 8);
         bytes(s.data(), s.size());
     }
-    void u64(uint64_t v) { bytes(&v, 8); }
+    void u64(uint64_t v)
+    {
+        if (hash_dump_target() == this)
+            fprintf(stderr, "LOG u64 %016llx\n", (unsigned long long)v);
+        bytes(&v, 8);
+    }
     uint64_t value() const
     {
         uint64_t x = h;
